@@ -98,7 +98,9 @@ fn inject_l1(cs: &CallSet, cfg: &Config, items: &mut Vec<Item>, fault: Fault, i:
     match fault {
         Fault::None => Some(()),
         Fault::SourceError => {
-            let pos = items.iter().position(|it| matches!(it, Item::Rec { pos, contig, .. } if *pos == cs.recs[i].pos as usize && *contig == cs.contig_name(cs.recs[i].contig)))?;
+            // the i-th record of the stream (records may share their site name, so the position is
+            // found by counting, not by name)
+            let pos = items.iter().enumerate().filter(|(_, it)| matches!(it, Item::Rec { .. })).nth(i).map(|(k, _)| k)?;
             items.insert(
                 pos,
                 Item::SourceError {
@@ -114,16 +116,14 @@ fn inject_l1(cs: &CallSet, cfg: &Config, items: &mut Vec<Item>, fault: Fault, i:
                 Fault::PloidyUnselected => *unsel.get(i % unsel.len().max(1))?,
                 _ => *sel.get(i % sel.len().max(1))?,
             };
-            let site = (cs.contig_name(cs.recs[i].contig), cs.recs[i].pos as usize);
-            for it in items.iter_mut() {
-                if let Item::Rec { contig, pos, g } = it {
-                    if *contig == site.0 && *pos == site.1 {
-                        g[who] = if fault == Fault::StrictViolation { G_MISSING } else { G_PLOIDY };
-                        return Some(());
-                    }
+            // the i-th record of the stream, found by counting (site names need not be unique)
+            match items.iter_mut().filter(|it| matches!(it, Item::Rec { .. })).nth(i)? {
+                Item::Rec { g, .. } => {
+                    g[who] = if fault == Fault::StrictViolation { G_MISSING } else { G_PLOIDY };
+                    Some(())
                 }
+                _ => None,
             }
-            None
         }
         _ => None,
     }
